@@ -58,6 +58,12 @@ def gen_class(rng, name, base=None, force_opts=None):
             opts['frozen'] = True
         else:
             opts.pop('frozen', None)
+        # per-field kw_only is not supported by cdef dataclasses (compile error), so a hierarchy is either all
+        # keyword-only or not at all
+        if base['eff']['kw_only']:
+            opts['kw_only'] = True
+        else:
+            opts.pop('kw_only', None)
         eff = dict(OPT_DEFAULT)
         eff.update(opts)
     nf = rng.randint(0 if base else 1, 5 if not base else 3)
@@ -78,7 +84,7 @@ def gen_class(rng, name, base=None, force_opts=None):
         if r < 0.12 and t == 'object' and not has_initvar:
             f['initvar'] = True
             has_initvar = True
-        if t in FACTORIES and (rng.random() < 0.35 or (need_default and t == 'list')):
+        if t in FACTORIES and not f['initvar'] and (rng.random() < 0.35 or (need_default and t == 'list')):
             f['factory'] = rng.choice(FACTORIES[t])
             f['has_default'] = True
             f['use_field'] = True
@@ -106,10 +112,12 @@ def gen_class(rng, name, base=None, force_opts=None):
         if f['has_default'] and f['init']:
             seen_default = True
         fields.append(f)
-    post_init = has_initvar or rng.random() < 0.2
+    all_initvars = [f['name'] for f in (base['all_fields'] if base else []) + fields if f['initvar']]
+    post_init = bool(all_initvars) or rng.random() < 0.2
     return {'name': name, 'base': base['name'] if base else None, 'opts': opts, 'eff': eff, 'fields': fields,
+            'chain_init': (base.get('chain_init', [True]) if base else []) + [eff['init']],
             'all_fields': (base['all_fields'] if base else []) + fields, 'post_init': post_init,
-            'initvars': [f['name'] for f in fields if f['initvar']]}
+            'initvars': all_initvars}
 
 
 def render(cls, pyx):
@@ -172,9 +180,15 @@ def _obs(f, *a, **k):
     except Exception as e:
         return '<%s>' % type(e).__name__
 
+def _repr(o):
+    import re
+    r = repr(o)
+    # default object repr: drop the module name and the address
+    return re.sub(r' at 0x[0-9a-f]+', '', r).replace(type(o).__module__ + '.', '')
+
 def construct(M, cls, a, k):
     o = _mk(M, cls, a, k)
-    return (_view(o), _obs(repr, o))
+    return (_view(o), _obs(_repr, o))
 
 def compare(M, cls, a1, k1, a2, k2):
     x = _mk(M, cls, a1, k1)
@@ -200,9 +214,7 @@ def hashval(M, cls, a, k):
 def mutate(M, cls, a, k, name, v):
     o = _mk(M, cls, a, k)
     r1 = _obs(setattr, o, name, v)
-    v1 = _view(o)
-    r2 = _obs(delattr, o, name)
-    return (r1, v1, r2)
+    return (r1, _view(o))
 
 def introspect(M, cls):
     C = getattr(M, cls)
@@ -283,6 +295,10 @@ def gen_cases(rng, cls, n):
         cases.append({'x': expr, 't': tag, '_c': name})
 
     add('introspect(M, %r)' % name, 'introspect')
+    if not cls['eff']['init'] or any(not c2 for c2 in cls.get('chain_init', [True])):
+        a, k = gen_args(rng, cls, wrong=True)
+        add('construct(M, %r, (1, 2, 3, 4, 5, 6, 7, 8, 9), {})' % name, 'construct-wrong-args')
+        return cases
     for i in range(n):
         r = rng.random()
         a, k = gen_args(rng, cls)
@@ -301,11 +317,9 @@ def gen_cases(rng, cls, n):
             add('hashval(M, %r, %s, %s)' % (name, a, k), 'hash-value')
         elif r < 0.76:
             fs = [f for f in cls['all_fields'] if not f['initvar']]
-            if fs and rng.random() < 0.85:
+            if fs:
                 f = rng.choice(fs)
-                add('mutate(M, %r, %s, %s, %r, %s)' % (name, a, k, f['name'], rng.choice(VALUES[f['type']])), 'setattr-delattr')
-            else:
-                add('mutate(M, %r, %s, %s, %r, %s)' % (name, a, k, 'nosuch', '1'), 'setattr-unknown')
+                add('mutate(M, %r, %s, %s, %r, %s)' % (name, a, k, f['name'], rng.choice(VALUES[f['type']])), 'setattr')
         elif r < 0.9:
             fs = [f for f in cls['all_fields'] if f['init'] and not f['initvar']]
             ch = {}
@@ -358,9 +372,9 @@ def classify(cls, case, exp, got):
 
 def main(ck):
     tree = cy.Tree('C30')
-    ncls = ck.pick(200, 2000)
-    per_mod = ck.pick(25, 50)
-    nops = ck.pick(40, 40)
+    ncls = ck.pick(80, 600)
+    per_mod = ck.pick(10, 30)
+    nops = ck.pick(30, 40)
     classes = []
     # option lattice floor: every single option and every pair of options at least once
     forced = [{o: not OPT_DEFAULT[o]} for o in OPTIONS]
